@@ -40,10 +40,13 @@ EXPECT = {
     # effective core charges: FCHK, Molden and WFX store them; WFN drops them; the Molekel reader derives the electron
     # count from the atomic numbers in $COORD and the charge, so a file written for such an object is rejected by it
     "ECP centre (atcorenums != atnums)": ((P, P), (P, P),     (E, E),     (P, P),     (P, P)),
+    # a ghost centre keeps its atomic number and has core charge zero: the same contradiction for the Molekel reader
+    "ghost centre (atcorenums 0, atnums kept)": ((P, P), (P, P), (E, E),     (P, P),     (P, P)),
 }
 FORMATS = ("fchk", "molden", "molekel", "wfn", "wfx")
 WHY = {
     "ECP centre (atcorenums != atnums)": "the Molekel reader computes the electron count as the sum of the atomic numbers minus the charge: with effective core charges the written occupations contradict it and the file is rejected",
+    "ghost centre (atcorenums 0, atnums kept)": "a ghost centre written with its atomic number counts as a nucleus for the Molekel reader: the electron count it derives contradicts the written occupations and the file is rejected",
     "no orbitals, SS generalized contraction": "no format stores general contractions, with or without orbitals",
     "no orbitals, SP shell": "only FCHK can store SP shells, with or without orbitals",
     "ROHF, hole below": "FCHK stores electron counts, not occupations: only aufbau occupations (alpha AND beta) can be represented",
@@ -100,6 +103,7 @@ def _objects(prog):
         "no orbitals, SS generalized contraction": lambda: mk(mo=None, obasis=basis(shell([0, 0], ["c", "c"]))),
         "no orbitals, SP shell": lambda: mk(mo=None, obasis=basis(shell([0, 1], ["c", "c"]))),
         "ECP centre (atcorenums != atnums)": lambda: mk(_atcorenums=np.array([6.0, 1.0])),
+        "ghost centre (atcorenums 0, atnums kept)": lambda: mk(_atcorenums=np.array([8.0, 0.0])),
     }
 
 
